@@ -120,7 +120,9 @@ void harness(void)
 	}
 	VERIF_ASSERT(sparse == spec_sparse, "C04.sparse.region");
 	VERIF_ASSERT(count == spec_n && count >= 1, "C04.sparse.region");
+#if NSPARSE > 0
 	VERIF_COVER(sparse && count < 100);
+#endif
 	VERIF_COVER(!sparse);
 #if NSPARSE > 1
 	VERIF_COVER(!sparse && par.offset > map[1].offset &&
@@ -171,7 +173,9 @@ void harness(void)
 #endif
 		VERIF_ASSERT(par.offset < par.file_size ||
 			     par.record_size == 0, "C04.sparse.accounting");
+#if NSPARSE > 0
 		VERIF_COVER(par.last_sparse && n > 0);
+#endif
 		VERIF_COVER(!par.last_sparse && n > 0 && par.record_size > 0);
 		VERIF_COVER(par.offset == par.file_size);
 	}
